@@ -9,6 +9,7 @@ Require Import Clarabel.Base.Dyadic Clarabel.Chordal.TreeSpec Clarabel.Chordal.E
 CODES = {10: "returned vector lengths differ from the original problem", 11: "verdict differs between decomposition on and off",
          12: "objective differs between decomposition on and off beyond tolerance", 13: "returned point violates the ORIGINAL problem's KKT residual / gap bounds",
          14: "returned s is not in the original cone (tolerance)", 15: "returned z is not in the dual cone (completed matrix / clique blocks not PSD)",
+         16: "the reference solve (decomposition off) fails the exact KKT test on the original data", 17: "primal objectives recomputed exactly from the two returned x differ", 18: "weak duality violated between the returned points of the runs with and without decomposition",
          20: "solve or decomposition with chordal decomposition enabled panicked / hung", 21: "reference solve (decomposition off) panicked / hung",
          31: "standard form: H differs from the model", 32: "augmented A differs from the model", 33: "augmented b differs from the model",
          34: "decomposed cone list differs from the model", 35: "reversed s is not the sum of the clique blocks", 36: "reversed z differs from the model",
